@@ -448,6 +448,8 @@ class ttensor:
         W = [np.empty((), order=self.order)] * self.ndims
         if isinstance(U, ttb.ktensor):
             U = U.factor_matrices
+        if len(U) != self.ndims:
+            assert False, "List of factor matrices is the wrong length"
         for i in range(0, self.ndims):
             if i == n:
                 continue
